@@ -22,6 +22,7 @@ import (
 type c29Case struct {
 	World  string   `json:"world"`          // "A" (tygen prelude + D) or "B" (cdcval prelude)
 	Return string   `json:"return,omitempty"` // returned-value case: the expression a parameterless script returns
+	Shared string   `json:"shared,omitempty"` // returned-value case: name of a shared-reference result (shared.go)
 	Param  string   `json:"param"`          // parameter type annotation
 	Script bool     `json:"script"` // script or transaction
 	VM     bool     `json:"vm"`
@@ -391,21 +392,28 @@ func runC29(env *mc.Env) {
 		} else {
 			rets = returnBatches()
 		}
-		jobs := len(params) + len(nonImp) + len(rets)
+		nShared := 0
+		if name == "A" {
+			nShared = len(sharedCases)
+		}
+		jobs := len(params) + len(nonImp) + len(rets) + nShared
+		// cheap jobs first (returned values), so that a deadline on a loaded machine cuts parameter types only
 		mc.ParallelFor(env, jobs, func(i int) {
 			hs := get()
 			defer put(hs)
 			switch {
-			case i < len(params):
-				runParam(env, w, hs, params[i], uni)
-			case i < len(params)+len(nonImp):
-				runNonImportable(env, w, hs, nonImp[i-len(params)], uni)
+			case i < nShared:
+				runShared(env, w, hs, &sharedCases[i])
+			case i < nShared+len(rets):
+				runReturns(env, w, hs, rets[i-nShared])
+			case i < nShared+len(rets)+len(nonImp):
+				runNonImportable(env, w, hs, nonImp[i-nShared-len(rets)], uni)
 			default:
-				runReturns(env, w, hs, rets[i-len(params)-len(nonImp)])
+				runParam(env, w, hs, params[i-nShared-len(rets)-len(nonImp)], uni)
 			}
 		})
 	}
-	env.R.BoundCompleted(fmt.Sprintf("%d parameter types x (universe of %d + goods + single mutations) x script/tx x interpreter/VM; returned values: every denotable type of the universe as a type value + %d expressions", total, len(uni), len(returnExprs)))
+	env.R.BoundCompleted(fmt.Sprintf("%d parameter types x (universe of %d + goods + single mutations) x script/tx x interpreter/VM; returned values: every denotable type of the universe as a type value + %d expressions + %d shared-reference results (each against a twin built from distinct references)", total, len(uni), len(returnExprs), len(sharedCases)))
 }
 
 func newHostSet(w *world, full bool) *hostSet {
@@ -652,6 +660,14 @@ func replayC29(env *mc.Env, raw json.RawMessage) (bool, string) {
 		c.World = "A"
 	}
 	w := getWorld(c.World)
+	if c.Shared != "" {
+		sc := sharedByName(c.Shared)
+		if sc == nil {
+			return false, "unknown shared-reference case " + c.Shared
+		}
+		sig, detail, _ := judgeShared(sc, func(src string) *rt.Result { return runFresh(w.ledger.Clone(), src, nil, true, c.VM) }, w.imports)
+		return sig != "", fmt.Sprintf("[%s] shared-reference result %s -> %s %s", modeName(true, c.VM), c.Shared, sig, detail)
+	}
 	if c.Return != "" {
 		res := runFresh(w.ledger.Clone(), returnSource(w.imports, []string{c.Return}), nil, true, c.VM)
 		sig, detail := judgeReturn(res)
